@@ -14,7 +14,8 @@ CONSTANTS Mode, Size, Emit
 D(n) == FromNat(n)
 \* identifiers chosen so that numeric order differs from text order (2 < 10 but "10" < "2"),
 \* and case / hyphen / digit suffixes are ordered by ASCII
-Ids == { NumId(D(0)), NumId(D(2)), NumId(D(10)), TxtId(<<97>>), TxtId(<<66>>), TxtId(<<97, 45>>), TxtId(<<97, 48>>) }
+Ids == { NumId(D(0)), NumId(D(2)), NumId(D(10)), TxtId(<<97>>), TxtId(<<66>>), TxtId(<<97, 45>>), TxtId(<<97, 48>>),
+         TxtId(<<49, 97>>), TxtId(<<45>>) }      \* "1a" and "-": text identifiers that start with a digit / a hyphen
 PreLists == {<<>>} \cup {<<x>> : x \in Ids} \cup {<<x, y>> : x \in Ids, y \in Ids}
 TuplesSmall == { <<1, 2, 3>>, <<1, 2, 10>>, <<1, 10, 3>> }
 TuplesLarge == TuplesSmall \cup { <<2, 2, 3>>, <<10, 2, 3>>, <<0, 0, 0>> }
